@@ -226,6 +226,15 @@ func (e *cenv) ident(name string) cval {
 			}
 		}
 	}
+	if e.frame != nil && !e.inOld && e.loopHdr != nil && e.loopHdr.Parent() == e.frame.fn {
+		// a variable assigned more than once before the loop: the definition that
+		// reaches the loop header (closest dominating definition, φ-nodes included)
+		if v := reachingDef(e.frame.fn, name, e.loopHdr); v != nil {
+			if _, bound := e.frame.vals[v]; bound {
+				return cval{t: e.frame.val(v), typ: v.Type(), sort: vc.sortOf(v.Type())}
+			}
+		}
+	}
 	if _, isParam := e.vars[name]; e.callSite && isParam {
 		// fall through to e.vars
 	} else if e.frame != nil && !e.inOld {
@@ -554,7 +563,7 @@ func (e *cenv) index(x *EIndex) cval {
 				vc.declareFun(fn+"!i", []string{"Int"}, "Int")
 				vc.emit(fmt.Sprintf("(assert (forall ((b Int) (i Int)) (! (and (= (%s!b (%s b i)) b) (= (%s!i (%s b i)) i) (> (%s b i) 0)) :pattern ((%s b i)))))", fn, fn, fn, fn, fn, fn))
 			}
-			return cval{t: fmt.Sprintf("(%s (s_base %s) (+ (s_off %s) %s))", fn, b.t, b.t, i.t), sort: "Int", typ: t.Elem(), aggr: true}
+			return cval{t: fmt.Sprintf("(%s (s_base %s) %s)", fn, b.t, addOff("(s_off "+b.t+")", i.t)), sort: "Int", typ: t.Elem(), aggr: true}
 		}
 		ev := vc.elemVar(t.Elem())
 		a := &Addr{Kind: "elem", Var: ev, Ref: "(s_base " + b.t + ")", Idx: fmt.Sprintf("(+ (s_off %s) %s)", b.t, i.t), Sort: vc.sortOf(t.Elem()), Typ: t.Elem()}
@@ -608,6 +617,25 @@ func (e *cenv) quant(x *EQuant) cval {
 		}
 		c.vars[v.Name] = cv
 		binders = append(binders, fmt.Sprintf("(%s %s)", name, cv.sort))
+	}
+	// a trigger X[j] over a slice of records contains the sum offset+j, and
+	// E-matching does not see through arithmetic (argument order is normalised
+	// differently in patterns and ground terms). Quantify over the position
+	// instead: j := J - offset(X), so that the trigger is (eaddr base(X) J).
+	if len(x.Pats) == 1 {
+		if ix, ok := x.Pats[0].(*EIndex); ok {
+			if id, ok := ix.I.(*EIdent); ok {
+				if cv, bound := c.vars[id.Name]; bound && cv.sort == "Int" && isBoundVar(x, id.Name) && !mentions(ix.X, id.Name) {
+					bx := c.eval(ix.X)
+					if bx.typ != nil {
+						if st, ok := bx.typ.Underlying().(*types.Slice); ok && isAggregate(st.Elem()) {
+							cv.t = fmt.Sprintf("(- %s (s_off %s))", cv.t, bx.t)
+							c.vars[id.Name] = cv
+						}
+					}
+				}
+			}
+		}
 	}
 	body := c.evalBool(x.Body)
 	q := "exists"
@@ -1337,4 +1365,72 @@ func (e *cenv) applyGhostSet(gs *GhostSet, st *State) {
 		return
 	}
 	vc.set(st, l.Var, vc.hsort[l.Var], fmt.Sprintf("(store %s %s %s)", cur, l.Ref, val.t))
+}
+
+// reachingDef: the SSA value of source variable `name` at the entry of block at:
+// the closest definition (debug ref or named φ) that dominates it. nil when the
+// variable has no definition other than a parameter.
+func reachingDef(fn *ssa.Function, name string, at *ssa.BasicBlock) ssa.Value {
+	var best ssa.Value
+	var bestBlock *ssa.BasicBlock
+	bestIdx := -1
+	for _, b := range fn.Blocks {
+		if b == at || !b.Dominates(at) {
+			continue
+		}
+		for i, in := range b.Instrs {
+			var v ssa.Value
+			switch x := in.(type) {
+			case *ssa.DebugRef:
+				if x.IsAddr {
+					continue
+				}
+				if obj, ok := x.Object().(*types.Var); ok && !obj.IsField() && obj.Name() == name {
+					if _, isParam := x.X.(*ssa.Parameter); !isParam {
+						v = x.X
+					}
+				}
+			case *ssa.Phi:
+				if x.Comment == name {
+					v = x
+				}
+			}
+			if v == nil {
+				continue
+			}
+			if best == nil || bestBlock.Dominates(b) && (bestBlock != b || i > bestIdx) {
+				best, bestBlock, bestIdx = v, b, i
+			}
+		}
+	}
+	return best
+}
+
+// addOff: offset + index, seeing through the position substitution of quant().
+func addOff(off, idx string) string {
+	if strings.HasPrefix(idx, "(- ") && strings.HasSuffix(idx, " "+off+")") {
+		return idx[3 : len(idx)-len(off)-2]
+	}
+	return fmt.Sprintf("(+ %s %s)", off, idx)
+}
+
+func isBoundVar(x *EQuant, name string) bool {
+	for _, v := range x.Vars {
+		if v.Name == name {
+			return true
+		}
+	}
+	return false
+}
+
+// mentions: the expression text refers to identifier name.
+func mentions(e Expr, name string) bool {
+	for _, tok := range strings.FieldsFunc(e.String(), func(r rune) bool {
+		return !(r == '_' || r >= '0' && r <= '9' || r >= 'a' && r <= 'z' || r >= 'A' && r <= 'Z')
+	}) {
+		if tok == name {
+			return true
+		}
+	}
+	return false
 }
